@@ -12,5 +12,14 @@ for l in open("/verif/properties.jsonl"):
     if p["id"] == pid:
         text = "%s\n\n%s\n\nIt must hold over: %s\n\nThe code that is meant to make it hold is mainly in: %s" % (
             p["title"], p["statement"], p["quantifier"]["text"], ", ".join(p["anchors"]["files"]))
+import glob, re
+avoid = []
+for m in sorted(glob.glob("/verif/seeded/%s/*/meta.json" % pid)):
+    d = os.path.dirname(m)
+    files = sorted(set(re.findall(r"^\+\+\+ b/(\S+)", open(os.path.join(d, "patch.diff")).read(), re.M)))
+    funcs = sorted(set(x.strip() for x in re.findall(r"^@@.*@@\s*(.*)$", open(os.path.join(d, "patch.diff")).read(), re.M) if x.strip()))
+    avoid.append("- %s (%s): %s" % (", ".join(files), "; ".join(funcs)[:120], json.load(open(m))["needs_to_manifest"]))
 t = open("/verif/tools/SEEDING_PROMPT.txt").read()
+if avoid:
+    t = t.replace("FOR EACH CHANGE k = 1..{N}:", "ALREADY COLLECTED in an earlier round (do NOT repeat these changes, close variants of them, or other changes at the same lines; look for different code sites, different clauses of the property and different triggering conditions):\n" + "\n".join(avoid) + "\n\nFOR EACH CHANGE k = 1..{N}:")
 print(t.replace("{N}", n).replace("{PID}", pid).replace("{PROPERTY_TEXT}", text).replace("{WT}", wt).replace("{OUT}", out))
